@@ -1,6 +1,6 @@
 (* C08 — property theorems, part C08_converse: only well-formed headers are accepted (needs additionally the strictness obligations).
    Nothing but statements, `exact`, Print Assumptions. *)
-From G08 Require Import Tables Cfg Spec Check Proofs V1Proofs SegProofs InvProofs MainProofs ObCommon ObV1 ObV2 ObStrict.
+From G08 Require Import Tables Cfg Spec Check Proofs V1Proofs SegProofs BoundProofs InvProofs MainProofs ModelOracle ObCommon ObV1 ObV2 ObStrict.
 Open Scope N_scope.
 
 (* conversely: whatever byte string ReadHeader accepts starts with a well-formed header, the returned addresses are
@@ -23,3 +23,21 @@ Theorem T08_malformed_fails : forall cs, is_bytes (concat cs) = true ->
 Proof. exact (malformed_fails_segmented src_cfg T08_accept_only_wf). Qed.
 Print Assumptions T08_malformed_fails.
 
+
+(* the model meets the oracle, for EVERY byte string: what the model configured from the current sources does with it is
+   accepted by the run-time oracle (exact hand-over, converse, bounded consumption and the recogniser's
+   soundness/completeness composed).  With the per-run correspondence (implementation = model on the generated inputs)
+   this is why verdict 0 on the implementation is the expected outcome, and a non-zero verdict is a defect. *)
+Theorem T08_model_meets_oracle : forall bs, is_bytes bs = true -> rcase_verdict (rcase_of_model src_cfg bs) = 0.
+Proof. exact (model_meets_oracle src_cfg
+  (fun hd a payload Hwf =>
+     match Hwf in wf_header hd0 a0 return exists h, read_flat src_cfg (hd0 ++ payload) = Ok h payload /\ adv_of h = a0 with
+     | WF_v1 f H => eq_ind _ (fun x => exists h, read_flat src_cfg x = Ok h payload /\ adv_of h = adv_v1 f)
+                           (read_v1_tcp_wf src_cfg ob_common ob_v1 f payload H) _ (app_assoc _ _ _)
+     | WF_unknown r H => eq_ind _ (fun x => exists h, read_flat src_cfg x = Ok h payload /\ adv_of h = adv_local)
+                           (read_v1_unknown_wf src_cfg r payload ob_common ob_v1 H) _ (app_assoc _ _ _)
+     | WF_v2 g H => read_v2_wf src_cfg ob_common ob_v2 g payload H
+     end)
+  T08_accept_only_wf
+  (fun bs => proj1 (read_bounded src_cfg ob_common ob_v1 ob_v2 bs))). Qed.
+Print Assumptions T08_model_meets_oracle.
